@@ -445,6 +445,14 @@ impl SoVersion {
     }
 }
 
+#[cfg(feature = "verif-hooks")]
+impl SoVersion {
+    /// Verification hook for the private `SoVersion::parse`.
+    pub fn verif_parse(so_path: &OsStr) -> Option<Self> {
+        Self::parse(so_path)
+    }
+}
+
 #[cfg(test)]
 impl PartialEq<(u32, u32, u32, u32)> for SoVersion {
     fn eq(&self, o: &(u32, u32, u32, u32)) -> bool {
